@@ -2,11 +2,11 @@
 `MoveFix` (the move loop has run to its fixpoint) as an invariant over all operations.
 Core Lean only.
 -/
-import KcpVerif.Lemmas.KcpOps
+import KcpVerif.Lemmas.KcpLiveOps
 import KcpVerif.Lemmas.KcpLive
 
-namespace KcpVerif.Kcp
-open KcpVerif KcpVerif.Gen
+namespace KcpVerif.Live
+open KcpVerif KcpVerif.Gen KcpVerif.Kcp
 
 /-- the receive side is untouched -/
 def RcvSame (a b : Kcp) : Prop :=
@@ -178,4 +178,4 @@ theorem run_fix (k : Kcp) (ops : List Op) (h : MoveFix k) (hok : runWndOk k ops)
 theorem new_fix (conv : U32) : MoveFix (Kcp.new conv) := by
   intro s rest h; simp [Kcp.new] at h
 
-end KcpVerif.Kcp
+end KcpVerif.Live
